@@ -853,7 +853,18 @@ pub fn poll_scripted_run<F: Fam>(out: &mut Out, rng: &mut Rng, run: u64, bytes: 
     let mut st: GenericPollPacketState<F::Header> = Default::default();
     let mut dropper_rng = Rng::new(rng.next());
     let mut ndrops = 0u32;
+    // on every third run ANOTHER connection is served by the same thread while this decoder is suspended at a Pending:
+    // a complete foreign frame goes through all three front-ends (the decoder's progress lives in the caller-held state
+    // and nowhere else)
+    let other: Vec<u8> = if F::NAME == "v5" { vec![0x32, 0x09, 0, 1, b'x', 0, 9, 0, b'a', b'b', b'c'] }
+                         else { vec![0x32, 0x08, 0, 1, b'x', 0, 9, b'a', b'b', b'c'] };
+    let interleave = run % 3 == 0;
     let mut dropf = || {
+        if interleave {
+            let _ = dec_poll::<F>(&other, 2);
+            let _ = dec_async::<F>(&other, 2);
+            let _ = dec_block::<F>(&other);
+        }
         let d = drop_all.unwrap_or_else(|| dropper_rng.bool());
         if d {
             ndrops += 1;
